@@ -303,6 +303,17 @@ def run_stream(ctx, stream, lines, drv, exes, asan_every, ncorpus=0, keep_hazard
         for j, i in enumerate(sub):
             ok = judge(ctx, stream, keep[i], out[j].rstrip(), exp[i], flavour)
             if flavour != "asan":
+                dist = ctx.cov.setdefault("distribution", {})
+                o, l = out[j], keep[i]
+                for key, n in (("calls-ok", o.count("rok:")), ("calls-buffer-size-error", o.count("rbufsize:")),
+                               ("calls-producer-abort", o.count("rabort:")), ("growth-steps", len(re.findall(r"m\d+:\d+:L", o))),
+                               ("calls-norealloc", len(re.findall(r"; [CJ] 0 ", l))), ("calls-realloc", len(re.findall(r"; [CJ] 1 ", l))),
+                               ("record-switch-copy(V)", l.count("; V ")), ("record-switch(P)", l.count("; P ")),
+                               ("size-set-to-0", l.count("; Z 0 ")), ("null-buffer-calls", len(re.findall(r"; N ; (?:Z \d+ ; )?[CJ]", l))),
+                               ("fresh-buffer-size-0-or-1", len(re.findall(r"; A [01] 0", l))), ("caller-frees", l.count("; F") + l.count("; G ")),
+                               ("direct-chunk-path(free>=512)", len(re.findall(r" 51[01]\b", l))), ("single-byte-runs", len(re.findall(r" -\d+", l)))):
+                    if n:
+                        dist[stream + ":" + key] = dist.get(stream + ":" + key, 0) + n
                 ctx.count(stream, 1, (stream, re.sub(r":\d+ ", ": ", out[j])[:160]))
                 if (i % 701) == 0:
                     ctx.sample({"case": keep[i][:300], "impl": out[j][:300]})
@@ -317,7 +328,7 @@ def finding_run(ctx, exe, line, env=None):
 # ------------------------------------------------------------------------- main
 def run(ctx):
     rng = ctx.rng
-    ctx.regen(["Dest", "StdHuff", "WorstCase", "XformIcc"])
+    ctx.regen(["Dest", "StdHuff", "WorstCase", "XformIcc", "Encoders", "Nbits"])
     ctx.prove()
     drv = ctx.model_driver()
     srcs = ["c13.c", "c13_ijg.c"]
@@ -333,6 +344,11 @@ def run(ctx):
                 rc, o, err = finding_run(ctx, exes.get(fl, exes["simd"]), l, env=asan_env if fl == "asan" else None)
                 ctx.log("replay", fl, "rc=%d" % rc, "\n  impl :", o[:400], "\n  model:", (ml[0] if ml else "-")[:400], "\n ", err[-600:])
                 if rc != 0 or BAD_TOKENS.search(o):
+                    ctx.violation("replayed: " + r.get("what", "")[:200], r, signature=r.get("signature"))
+            elif l.startswith("hk "):
+                rc, o, err = finding_run(ctx, exes.get(fl, exes["simd"]), l, env=asan_env if fl == "asan" else None)
+                ctx.log("replay rc=%d %s %s" % (rc, o[:300], err[-300:]))
+                if rc != 0 or " other " in o or "DIFF" in o:
                     ctx.violation("replayed: " + r.get("what", "")[:200], r, signature=r.get("signature"))
             elif l.startswith("xicc"):
                 rc, o, err = finding_run(ctx, exes["simd"], l)
@@ -361,7 +377,9 @@ def run(ctx):
     hostile = [(0, 8, 8, GRAY, 3, 90, pat, 0, 0, 128 | 64) for pat in range(8)] + \
               [(0, 16, 8, GRAY, 3, 90, pat, 0, 0, 128 | 64) for pat in (0, 3, 4)] + \
               [(0, 8, 8, RGB, 0, 90, pat, 0, 0, 128 | 64) for pat in (0, 3)] + \
-              [(0, 8, 8, GRAY, 3, 90, 0, 0, 0, 128 | 64 | 2), (0, 8, 8, GRAY, 3, 90, 3, 500, 0, 128)]
+              [(0, 8, 8, GRAY, 3, 90, 0, 0, 0, 128 | 64 | 2), (0, 8, 8, GRAY, 3, 90, 3, 500, 0, 128)] + \
+              [(0, 8, 8, GRAY, 3, 90, pat, 0, 0, 128 | 64 | 2 | 256) for pat in (0, 2, 3, 7)] + \
+              [(0, 16, 8, GRAY, 3, 90, 3, 0, 0, 128 | 64 | 2 | 256)]     # 12-bit source: |coef| up to 16383, optimised tables
     specs = specs + hostile
     rc, out, err = run_lines(exes["simd"], ["size " + spec_str(s) for s in specs])
     sized = []
@@ -440,6 +458,55 @@ def run(ctx):
     ni = run_stream(ctx, "I", i_lines, drv, exes, 3, ncorpus=nci)
     nt = run_stream(ctx, "T", t_lines, drv, exes, 4, ncorpus=nct)
     ctx.cov["traces_validated_against_impl"] = nd + ni + nt + nh + ns if drv else 0
+
+    # ---- K: the longest codes a table can have (lengths 1..16, code 1111111111111110 for the top category) on
+    #         coefficients of maximal magnitude at 8- and 12-bit precision through jpeg_write_coefficients: the block
+    #         must stay below the model's bound (< BUFSIZE) and capacities around it must never be overrun
+    kl = []
+    for prec in (8, 12):
+        for pat in range(8):
+            for nbw in (1, 2):
+                off = rng.below(ctx.n(9, 2))
+                for leave in range(200 + off, 521, ctx.n(9, 2)):
+                    kl.append("hk %d %d %d %d %d" % (prec, pat, nbw, leave + (410 if nbw == 2 and leave & 1 else 0), (leave >> 1) & 1))
+    cm = {}
+    mlk = model_lines(ctx, drv, ["chunkmax 8", "chunkmax 12"])
+    if mlk:
+        for l in mlk[:2]:
+            m = re.match(r"chunkmax (\d+)", l)
+            if m:
+                cm[8 if not cm else 12] = int(m.group(1))
+    for fl, env in (("simd", None), ("asan", asan_env)):
+        sub = kl if fl == "simd" else kl[::5]
+        rc, out, err = run_lines(exes[fl], sub, env=env)
+        if rc != 0:
+            idx = max(0, min(len(sub) - 1, len([o for o in out if o])))
+            ctx.violation("maximal-code block overruns the destination buffer (%s build, rc=%d): %s :: %s" % (fl, rc, sub[idx], err[-300:]),
+                          {"lines": [sub[idx]], "flavour": fl, "stderr": err[-2000:]}, signature="K:write-outside-destination-buffer")
+        worst = {}
+        for l, o in zip(sub, out):
+            m = re.match(r"hk n=(\d+) sos=(\d+) blk=(\d+) cap=(\d+) (\w+) (\S+) same=(\d)", o)
+            if not m:
+                continue
+            n, blk, cap, st, ref, same = int(m.group(1)), int(m.group(3)), int(m.group(4)), m.group(5), m.group(6), m.group(7)
+            prec, alloc = int(l.split()[1]), int(l.split()[5])
+            worst[prec] = max(worst.get(prec, 0), blk)
+            bad = None
+            if st == "other" or ref == "DIFF":
+                bad = "unexpected outcome"
+            elif alloc == 0 and ((st == "ok") != (cap > n) or same != "1"):
+                bad = "NOREALLOC outcome does not match the capacity"
+            elif alloc == 1 and st != "ok":
+                bad = "reallocation enabled but the call failed"
+            if bad:
+                ctx.violation("%s: %s -> %s" % (bad, l, o), {"lines": [l], "impl": o, "flavour": fl}, signature="K:" + bad.replace(" ", "-"))
+            if fl == "simd":
+                ctx.count("K", 1, ("K", prec, st, cap - n))
+        for prec, b in worst.items():
+            if prec in cm and b > cm[prec]:
+                ctx.broken_tie("bound:block-chunk", "a %d-bit block stored %d bytes, more than the proved bound %d" % (prec, b, cm[prec]))
+        if fl == "simd":
+            ctx.cov["largest_block_bytes_vs_bound"] = {str(p): [worst.get(p), cm.get(p)] for p in (8, 12)}
 
     # ---- worst-case size + ICC of lossless transforms: NOREALLOC into exactly tj3TransformBufSize() bytes over
     #      {source ICC} x {instance ICC} x TJPARAM_SAVEMARKERS x TJXOPT_COPYNONE x {tj3GetICCProfile before}
